@@ -55,4 +55,53 @@ def isort {α : Type} (le : α → α → Bool) : List α → List α
   | [] => []
   | a :: l => insertSorted le a (isort le l)
 
+/-- Transcendental operations used by the generated formulas; instances: `Float` (execution, below) and `ℝ`
+(proofs, `Qats/Lemmas/RealOps.lean`). Arithmetic stays in the ordinary operator classes. -/
+class TranscOps (α : Type) where
+  exp : α → α
+  log : α → α
+  log10 : α → α
+  sqrt : α → α
+  sin : α → α
+  cos : α → α
+  gamma : α → α
+  abs : α → α
+  rpow : α → α → α
+  pi : α
+
+def lanczosCoef : List Float :=
+  [0.99999999999980993, 676.5203681218851, -1259.1392167224028, 771.32342877765313, -176.61502916214059,
+   12.507343278686905, -0.13857109526572012, 9.9843695780195716e-6, 1.5056327351493116e-7]
+
+def floatPi : Float := 3.141592653589793
+
+/-- Lanczos approximation (g = 7, n = 9) of Γ for `x ≥ 0.5`. -/
+def gammaLanczos (x : Float) : Float :=
+  let x := x - 1.0
+  let t := x + 7.5
+  let rec sum (i : Nat) (cs : List Float) (acc : Float) : Float :=
+    match cs with
+    | [] => acc
+    | c :: cs => sum (i + 1) cs (acc + c / (x + i.toFloat))
+  let a := match lanczosCoef with
+    | c0 :: cs => sum 1 cs c0
+    | [] => 0.0
+  Float.sqrt (2.0 * floatPi) * Float.pow t (x + 0.5) * Float.exp (-t) * a
+
+/-- Γ on `Float` (reflection formula below 0.5); validated against `scipy.special.gamma` on every run. -/
+def floatGamma (x : Float) : Float :=
+  if x < 0.5 then floatPi / (Float.sin (floatPi * x) * gammaLanczos (1.0 - x)) else gammaLanczos x
+
+instance : TranscOps Float where
+  exp := Float.exp
+  log := Float.log
+  log10 := Float.log10
+  sqrt := Float.sqrt
+  sin := Float.sin
+  cos := Float.cos
+  gamma := floatGamma
+  abs := Float.abs
+  rpow := Float.pow
+  pi := floatPi
+
 end Qats
